@@ -234,6 +234,9 @@ func (o OrderedCollectionPage) MarshalJSON() ([]byte, error) {
 		notEmpty = JSONWriteItemProp(&b, "prev", o.Prev) || notEmpty
 	}
 	notEmpty = JSONWriteIntProp(&b, "totalItems", int64(o.TotalItems)) || notEmpty
+	if o.StartIndex > 0 {
+		notEmpty = JSONWriteIntProp(&b, "startIndex", int64(o.StartIndex)) || notEmpty
+	}
 	if o.OrderedItems != nil {
 		notEmpty = JSONWriteItemCollectionProp(&b, "orderedItems", o.OrderedItems, false) || notEmpty
 	}
